@@ -3,7 +3,7 @@ import random
 
 import numpy as np
 
-from .. import decoder, gens, hist_array
+from .. import decoder, gens, hist_array, hist_stale
 from ..common import Result
 from ..monitors import bits_equal
 
@@ -13,7 +13,9 @@ RULE = ('(a) the finite table 13 types x 2 byte orders x 3 writers (asarray, asa
         'enumerated completely: raw file bytes compared with bytes built by struct.pack with explicit </> prefix; '
         '(b) random histories (create / append / iterappend / assign / truncate / metadata / overwrite=True '
         're-creation with other type and size) with the independent decoder evaluated after every step and compared '
-        'with what live and fresh Darr handles report. Non-trivial = a step changed the data file or descriptor; '
+        'with what live and fresh Darr handles report; (c) stale-handle histories (the array truncated by path, changed '
+        'through a second handle or re-created behind a long-lived handle that is then read, assigned, appended to or '
+        'truncated), decoder and fresh handle vs model after every step. Non-trivial = a step changed the data file or descriptor; '
         'distinct by (start, dtype, byte order, op sequence) or table cell')
 EXHAUSTIVE = False
 EXHAUSTIVE_PART = '13x2 type/byte-order table x 3 writers'
@@ -57,6 +59,8 @@ def cases(tier, seed):
                                            'chunklen': rng.choice([1, 2, 3, 100])},
                'ops': [rng.choice(allops) for _ in range(length)], 'vseed': f'{seed}:{k}',
                'observe': ['every', 'sparse', 'end'][k % 3]}
+    # (c) the array is changed behind a long-lived handle (by path, second handle, re-creation) and the handle is used again
+    yield from hist_stale.array_cases(random.Random(f'C02:{seed}:stale'), 300 if tier == 'quick' else 4000, seed)
 
 
 def run_table(case, env, res):
@@ -107,6 +111,11 @@ def run_case(case, env):
     res = Result()
     if case['kind'] == 'table':
         run_table(case, env, res)
+        return res
+    if case['kind'] == 'stale':
+        hist_stale.run_array(env, res, case, want_readme=False)
+        res.sig = hist_stale.sig_of(case)
+        res.dim('stale_steps', '>'.join(sorted(set(case['steps']))))
         return res
     hist_array.run(env, res, case, MONITORS)
     res.sig = hist_array.sig_of(case)
